@@ -69,3 +69,19 @@ COMMON_ASSUMPTIONS = [
     'queues" inside L2 and checked on its own in C08',
     'tokio oneshot / mpsc / Notify / std Mutex / HashMap contracts as in DESIGN.md 3.1',
 ]
+
+
+def kill_preemption(ctx, name, st, key, on_cex=None):
+    """C01 / C03: a kill that is waiting when the actor task is polled pre-empts every callback - in such a poll no callback starts and none runs on to its
+    end (the signal port is looked at before the callback future is polled). Every callback start / end event that follows a poll-start marker must lie on a
+    path on which no kill was waiting at that marker."""
+    cur = None
+    n = 0
+    for e in st.trace:
+        if e[0] == 'PORTS':
+            cur = e[2]
+        elif e[0] == 'CB' and e[1] in ('start', 'end') and cur is not None and not z3.is_false(cur):
+            n += 1
+            ctx.prove('%s.%s_%s_not_in_a_poll_that_began_with_a_kill_waiting.%d' % (name, e[2], e[1], n), st.pc, z3.Not(cur),
+                      group='%s.a_waiting_kill_preempts_every_callback' % key, key=key + '.a_waiting_kill_preempts_every_callback', on_cex=on_cex)
+    return n
